@@ -182,7 +182,9 @@ def predict_case(draw):
     subset = None
     if n >= 2 and draw(st.integers(0, 2)) == 0:
         k = draw(st.integers(1, n))
-        subset = sorted(draw(st.permutations(range(n)))[:k])
+        subset = draw(st.permutations(range(n)))[:k]
+        if draw(st.integers(0, 2)) > 0:
+            subset = sorted(subset)  # (otherwise: rows picked in any order, e.g. predictor[[3, 0, 2]] or predictor[::-1])
     idx = list(range(n)) if subset is None else subset
     qs = []
     for _ in range(draw(st.integers(1, 6))):
@@ -231,7 +233,7 @@ def run_predict(case, stt):
                     _ = pred(all_ents[0].tmid)
                 pred = pred[sub]
         else:
-            pc2 = dict(pc, entries=[pc["entries"][i] for i in sub], via="stringio")
+            pc2 = dict(pc, entries=[pc["entries"][i] for i in sorted(sub)], via="stringio")
             pred = load(pc2)
         ents = [all_ents[i] for i in sub]
     else:
